@@ -6,8 +6,18 @@
    Transcription notes
    * `_waiters` is a deque of futures.  The model stores (task, future): the task component is a ghost
      annotation (never read by `step` to take a decision) that names the task suspended on the future.
-   * acquire(): `value > 0 and not waiters` -> checkpoint_if_cancelled (no suspension here: the caller is not
-     inside a cancelled AnyIO scope; C08 covers that) ; value -= 1 ; fast_acquire -> return, else suspend in
+   * acquire() (HEAD, after the F53 fix c2fb7fb): FIRST `await checkpoint_if_cancelled()`, THEN the test
+     `value > 0 and not waiters` and the decrement in ONE atomic segment.
+       - caller's scope chain shows no cancellation: the check neither suspends nor raises (op AcqBegin);
+       - a cancelled scope is visible (op AcqBeginC): the check yields (sleep(0)) BEFORE anything of the semaphore is
+         read or written - phase CkYield, also on the contended path.  The task then either receives the delivered
+         cancellation (Cancel; Resume -> CancelledError out of acquire(), nothing touched), or spins (Resume without a
+         pending cancellation: the check yields again), or - since fix F46 - the check re-reads the scope chain,
+         finds the cancelled scope cut off (a scope in between was shielded by another task, ...) and RETURNS
+         NORMALLY after having yielded (op CkPass): only then test and decrement run, atomically.
+       `step_f53_pinned` keeps the old order (test; check; decrement): a task that took the permit during the
+       check's yield is overwritten (value -1, two holders of one permit), see sem_check_order_refuted_pinned.
+     then: value -= 1 ; fast_acquire -> return, else suspend in
      cancel_shielded_checkpoint (phase FastYield); a CancelledError delivered there (only a native
      Task.cancel() can do that) runs `self.release(); raise`.
      Otherwise enqueue a fresh future and suspend on it (phase Waiting f).  Resumption: normal return; or
@@ -29,14 +39,17 @@ Inductive fstate := FPending | FSet | FCancelled.
 Inductive phase :=
 | Idle                  (* at a decision point of its program *)
 | FastYield             (* took a permit on the uncontended path, suspended in cancel_shielded_checkpoint *)
-| Waiting (f : fid).    (* enqueued fut and suspended on it *)
+| Waiting (f : fid)     (* enqueued fut and suspended on it *)
+| CkYield.              (* suspended in the sleep(0) of checkpoint_if_cancelled() at the start of acquire() *)
 
 Inductive op :=
 | AcqBegin (t : tid)    (* t calls `await sem.acquire()` and runs up to its first suspension / return *)
 | AcqNowait (t : tid)
 | Release (t : tid)
 | Resume (t : tid)      (* the ready wake-up / step of blocked task t runs *)
-| Cancel (t : tid).     (* Task.cancel() on blocked task t *)
+| Cancel (t : tid)      (* Task.cancel() on blocked task t *)
+| AcqBeginC (t : tid)   (* `await sem.acquire()` called while a cancelled scope is visible to t *)
+| CkPass (t : tid).     (* t's step runs and the check finds the cancelled scope cut off: it returns normally *)
 
 Inductive res :=
 | RDone       (* the call returned normally *)
@@ -128,10 +141,12 @@ Definition add_held (s : st) (t : tid) : st := set_held s (t :: held s).
 Definition cancel_release (s : st) : st * res :=
   if at_max s then (set_dropped s (S (dropped s)), RValue) else (rel_core s, RCancelled).
 
-Definition step (s : st) (o : op) : st * res :=
-  match o with
-  | AcqBegin t =>
-      if negb (is_idle (phase_of s t)) then (s, RRejected) else
+Definition set_phase (s : st) (t : tid) (p : phase) : st :=
+  mk (fast s) (maxv s) (value s) (waiters s) (futs s) (nfut s) (upd (phase_of s) t p) (mustc s)
+     (init0 s) (held s) (infl s) (extra s) (dropped s) (enq s).
+
+(* acquire() after the cancellation check: test and decrement / enqueue, up to the first suspension / return *)
+Definition acq_body (s : st) (t : tid) : st * res :=
       match value s, waiters s with
       | S v, [] =>
           if fast s then
@@ -145,6 +160,19 @@ Definition step (s : st) (o : op) : st * res :=
           (mk (fast s) (maxv s) (value s) (waiters s ++ [(t, f)]) (upd (futs s) f FPending) (S f)
               (upd (phase_of s) t (Waiting f)) (mustc s)
               (init0 s) (held s) (infl s) (extra s) (dropped s) (enq s ++ [(t, f)]), RBlocked)
+      end.
+
+Definition step (s : st) (o : op) : st * res :=
+  match o with
+  | AcqBegin t =>
+      if negb (is_idle (phase_of s t)) then (s, RRejected) else acq_body s t
+  | AcqBeginC t =>
+      (* the check comes first: it yields with nothing of the semaphore read or written *)
+      if negb (is_idle (phase_of s t)) then (s, RRejected) else (set_phase s t CkYield, RBlocked)
+  | CkPass t =>
+      match phase_of s t with
+      | CkYield => if mustc s t then (leave s t, RCancelled) else acq_body (leave s t) t
+      | _ => (s, RRejected)
       end
   | AcqNowait t =>
       if negb (is_idle (phase_of s t)) then (s, RRejected) else
@@ -164,6 +192,7 @@ Definition step (s : st) (o : op) : st * res :=
       match phase_of s t with
       | Idle => (s, RRejected)
       | FastYield => (set_mustc s t true, RNone)       (* sleep(0): no waiter future *)
+      | CkYield => (set_mustc s t true, RNone)         (* sleep(0): no waiter future *)
       | Waiting f =>
           match futs s f with
           | FPending =>
@@ -190,7 +219,40 @@ Definition step (s : st) (o : op) : st * res :=
               if mustc s t then cancel_release (leave s t)   (* lines 2013-2016 *)
               else (add_held (leave s t) t, RDone)
           end
+      | CkYield =>
+          (* the delivered cancellation is raised at the sleep(0); without one the check yields again (spin) *)
+          if mustc s t then (leave s t, RCancelled) else (s, RBlocked)
       end
+  end.
+
+(* ---- the order before the F53 fix: test; check; decrement.  Differs from `step` only for a caller that sees a
+   cancelled scope: on the uncontended path the check (and its yield) sits between the test and the decrement,
+   the contended path has no check at all (the task enqueues like a live one) ---- *)
+Definition take_unchecked (s : st) (t : tid) : st * res :=
+  (* `self._value -= 1` without looking again: Python's int goes to -1 when the permit is gone; the model's
+     natural number stays at 0 and the two holders of one permit show in `held` *)
+  let v := pred (value s) in
+  if fast s then
+    (mk (fast s) (maxv s) v (waiters s) (futs s) (nfut s) (phase_of s) (mustc s)
+        (init0 s) (t :: held s) (infl s) (extra s) (dropped s) (enq s), RDone)
+  else
+    (mk (fast s) (maxv s) v (waiters s) (futs s) (nfut s) (upd (phase_of s) t FastYield) (mustc s)
+        (init0 s) (held s) (t :: infl s) (extra s) (dropped s) (enq s), RBlocked).
+
+Definition step_f53_pinned (s : st) (o : op) : st * res :=
+  match o with
+  | AcqBeginC t =>
+      if negb (is_idle (phase_of s t)) then (s, RRejected) else
+      match value s, waiters s with
+      | S _, [] => (set_phase s t CkYield, RBlocked)      (* the test passed; now the check yields *)
+      | _, _ => acq_body s t
+      end
+  | CkPass t =>
+      match phase_of s t with
+      | CkYield => if mustc s t then (leave s t, RCancelled) else take_unchecked (leave s t) t
+      | _ => (s, RRejected)
+      end
+  | _ => step s o
   end.
 
 (* ---- observable output of a step (what the harness compares) ---- *)
@@ -208,7 +270,7 @@ Definition observe (s : st) (r : res) : list Z :=
 Definition decode_op (c t : Z) : op :=
   match c with
   | 0 => AcqBegin (zn t) | 1 => AcqNowait (zn t) | 2 => Release (zn t)
-  | 3 => Resume (zn t) | _ => Cancel (zn t)
+  | 3 => Resume (zn t) | 4 => Cancel (zn t) | 5 => AcqBeginC (zn t) | _ => CkPass (zn t)
   end%Z.
 
 Fixpoint decode_ops (l : list Z) : list op :=
